@@ -1,6 +1,7 @@
 import HeraProofs.Props.C19
 import HeraProofs.Props.C19b
 import HeraProofs.Props.C19c
+import HeraProofs.Props.C19d
 open Hera
 #print axioms C19_div_mod
 #print axioms fdiv_fmod_bounds
@@ -20,3 +21,9 @@ open Hera
 #print axioms C19_size_stack
 #print axioms C19_ord_stack
 #print axioms C19_not_stack
+#print axioms s_memcpy_code_is_ops
+#print axioms memcpy_exit
+#print axioms memcpy_iter
+#print axioms memcpy_loop
+#print axioms copyFwd_outside
+#print axioms C19_memcpy
